@@ -37,7 +37,7 @@ COMPONENTS = {
              "cutplace.checks", "csv", "io.TextIOWrapper/BufferedWriter/StringIO"],
     "stub": ["SimFS/SimRaw (short writes)", "os.linesep seam", "client"],
 }
-PROBES_REQUIRED = ["cid-given-as-path", "write_rows-with-one-shot-iterator", "unencodable-row", "write_rows-batch", "rejection-then-acceptance", "duplicate-of-rejected-row", "wrong-item-count", "bad-cell", "duplicate",
+PROBES_REQUIRED = ["same-row-object-written-again", "cid-given-as-path", "write_rows-with-one-shot-iterator", "unencodable-row", "write_rows-batch", "rejection-then-acceptance", "duplicate-of-rejected-row", "wrong-item-count", "bad-cell", "duplicate",
                    "linesep-crlf-with-any", "delimiter:none", "delimiter:any", "delimiter:crlf", "target:path",
                    "target:stream", "header-row-written", "end-check-fails"]
 EOLS = {"lf": "\n", "cr": "\r", "crlf": "\r\n"}
@@ -65,6 +65,12 @@ def generate(seed, tier):
             "line_delimiter": swarm.choice(["lf", "cr", "crlf", "any"] + (["none"] if fmt == "fixed" else []))}
     pools = {"k": (["a", "b", "c"], ["x", ""]), "n": (["1", "7", "42"], ["z", "100", "-1"]),
              "t": (["x", "yz", "abc"] + (["a,b", "a\rb", "a\nb", "\r\n"] if fmt == "delimited" else []), ["abcd", ""])}
+    if swarm.random() < 0.25:
+        # every field may be empty: a row of empty values only is a row like any other
+        for field in fields:
+            field["empty"] = True
+        for name in pools:
+            pools[name][0].extend(["", ""])
     spec["encoding"] = swarm.choice(["utf-8", "utf-8", "ascii", "iso-8859-1"])
     if spec["encoding"] != "utf-8":
         # characters the target encoding cannot store: such a row passes validation but cannot be written
@@ -95,7 +101,9 @@ def generate(seed, tier):
         batches.append(size)
         remaining -= size
     return {"io": config, "cid": spec, "rows": rows, "batches": batches, "target": swarm.choice(["stream", "path"]),
-            "close": True, "cid_as_path": swarm.random() < 0.2, "rows_as_iterator": swarm.random() < 0.5}
+            "close": True, "cid_as_path": swarm.random() < 0.2, "rows_as_iterator": swarm.random() < 0.5,
+            # the caller keeps one list object per distinct row and hands the same object over again for a repeated row
+            "reuse_row_objects": swarm.random() < 0.4}
 
 
 def _encodable(row, encoding):
@@ -145,6 +153,15 @@ def execute(scenario):
         if run.writer is None:
             raise core.Violation("writer-construction-failed", features, repr(lib.error_summary(run.init_error)))
         accepted = []
+        row_objects = {}
+
+        def as_given(row):
+            if scenario.get("reuse_row_objects"):
+                if tuple(row) in row_objects:
+                    result.probe("same-row-object-written-again")
+                return row_objects.setdefault(tuple(row), list(row))
+            return list(row)
+
         unencodable_seen = False
         previous_output = ""
         written_header = 0
@@ -175,9 +192,9 @@ def execute(scenario):
                 if item[0] == "err":
                     break
             if len(batch) == 1:
-                ok = run.write_row(batch[0])
+                ok = run.write_row(as_given(batch[0]), copy=False)
             else:
-                batch_rows = [list(row) for row in batch]
+                batch_rows = [as_given(row) for row in batch]
                 if scenario.get("rows_as_iterator"):
                     batch_rows = iter(batch_rows)  # any iterable of rows will do, also a one-shot one
                     result.probe("write_rows-with-one-shot-iterator")
@@ -347,6 +364,8 @@ def candidates(scenario):
         yield lib.with_value(scenario, ["target"], "stream")
     if scenario.get("cid_as_path"):
         yield lib.with_value(scenario, ["cid_as_path"], False)
+    if scenario.get("reuse_row_objects"):
+        yield lib.with_value(scenario, ["reuse_row_objects"], False)
     fields = scenario["cid"]["fields"]
     if len(fields) > 1:
         name = fields[-1]["name"]
